@@ -266,6 +266,16 @@ func rejectedPieces(r *rand.Rand, known, hoisted []string, uniq *int) []N {
 		first = rej("for " + g + " := 0; " + g + " < 1; " + g + "++ {\nundefined_name_q\n}")
 		return []N{first, {"kind": "code", "ast": []any{ast.ExprStmt(ast.Call(ast.Id("type"), ast.Id(g)))}, "hoist": []any{}, "declares": false,
 			"src": "type(" + g + ")"}}
+	case k == 7:
+		// refused because of a function HEADER (the compiler has already entered the function): a parameter
+		// without default after one with, a default that is not a literal, a parameter name twice
+		hdr := []string{"(a=1, b)", "(a=-1)", "(a, a)", "(a, b=[1])"}[r.Intn(4)]
+		first = rej("func " + fn + hdr + " {\nreturn a\n}")
+		mention, again = fn+"()", code(fdecl(fn, 4), ast.ExprStmt(ast.Call(ast.Id(fn))))
+	case k == 8:
+		hdr := []string{"(a=1, b)", "(a=-1)", "(a, a)"}[r.Intn(3)]
+		first = rej(vn + " := 3\nprint(\"rejected\", " + vn + ")\nzz" + vn + " := func" + hdr + " {\nreturn a\n}")
+		mention, again = vn, code(ast.Var(vn, ast.Int(9)), ast.ExprStmt(ast.Id(vn)))
 	default:
 		return []N{rejectedPiece(r, known)}
 	}
